@@ -1,6 +1,6 @@
 (* Dispatch.v — the single entry point the extracted driver calls:
    component number and flat input -> flat output. *)
-From RaftModel Require Import Base LogCache Config Commitment Compaction Node NodeCodec.
+From RaftModel Require Import Base LogCache Config Commitment Compaction Node NodeCodec Candidate.
 Open Scope N_scope.
 
 Definition run_case (comp : N) (inp : list N) : list N :=
@@ -12,5 +12,6 @@ Definition run_case (comp : N) (inp : list N) : list N :=
   | 7 => run_nextconfig inp
   | 11 => run_compact inp
   | 6 => run_nodeseq inp
+  | 14 => run_candidate inp
   | _ => []
   end.
